@@ -330,6 +330,8 @@ def run(tier, seed):
     check_wme(pr, cr)
     check_wme_modular(pr, cr)
     obs = pr.obs
+    import envelope
+    obs += envelope.guard_weighted("C08")
     obs += vl.run_lemmas("C08", ["lemma_fold", "merge_tree", "concat"])
     meta = {
         "level": "proof",
@@ -345,13 +347,17 @@ def run(tier, seed):
                         "accessor contracts for W > 0 assume the realizable-weights invariant 0 < W2 <= W^2 <= n*W2, which C17 proves inductive",
                         "collect/extend glue is C20's subject; every chunking/bracketing by the Verus merge-tree lemma",
                         "WeightedMeanWithError::{add,merge} are proved twice: with the real bodies of WeightedMean / Variance executed, and modularly from their contracts only (via_contracts_of_parts)",
-                        "the 8*n*2^-53 relative envelopes are not decided (A-REAL)"],
+                        "the 8*n*2^-53 relative envelopes are not decided (A-REAL); a BOUNDED known-answer corpus (envelope_guard) exercises them"],
         "explanation": "rep of (n,S1,S2,W,W2,WX) preserved by add/merge in all emptiness-by-weight cases; a zero-weight observation changes only the unweighted part.",
     }
     return obs, meta, confirm
 
 
 def confirm(ob):
+    import envelope
+    r = envelope.confirm_from_cex(ob)
+    if r:
+        return r
     import replay, oracle
     from fractions import Fraction as Fr
     import math
